@@ -195,5 +195,52 @@ pub fn arena(args: &[String]) -> Result<Value> {
             }
         }
     }
-    Ok(json!({"violated": !failures.is_empty(), "type_histories": n, "global_histories": gn, "length": len, "failures": failures}))
+    // imports addressed by NAME: histories of add / remove(module, name) / find over a small alphabet of (module, name) pairs that
+    // contains mirrored pairs ("a","b") / ("b","a") and repeated names; reference model: a list of (module, name, live)
+    let pairs = [("a", "b"), ("b", "a"), ("a", "a"), ("m", "b")];
+    let mut ialpha: Vec<(u8, usize)> = vec![];
+    for k in 0..pairs.len() { ialpha.push((0, k)); ialpha.push((1, k)); }
+    let ilen = len.min(5);
+    let itotal = ialpha.len().pow(ilen as u32);
+    let mut inn = 0usize;
+    for code in 0..itotal {
+        let mut c = code;
+        let h: Vec<(u8, usize)> = (0..ilen).map(|_| { let o = ialpha[c % ialpha.len()]; c /= ialpha.len(); o }).collect();
+        inn += 1;
+        let r = std::panic::catch_unwind(|| -> std::result::Result<(), String> {
+            let mut m = walrus::Module::default();
+            let ty = m.types.add(&[], &[]);
+            let mut model: Vec<(usize, walrus::ImportId, bool)> = vec![];
+            for (step, (op, k)) in h.iter().enumerate() {
+                let (md, nm) = pairs[*k];
+                if *op == 0 {
+                    let (_, id) = m.add_import_func(md, nm, ty);
+                    model.push((*k, id, true));
+                } else {
+                    let want = model.iter().position(|(kk, _, live)| *kk == *k && *live);
+                    let got = m.imports.remove(md, nm);
+                    match (want, got.is_ok()) {
+                        (Some(p), true) => model[p].2 = false,
+                        (None, false) => {}
+                        (Some(_), false) => return Err(format!("step {step}: remove({md:?}, {nm:?}) failed although such an import is live")),
+                        (None, true) => return Err(format!("step {step}: remove({md:?}, {nm:?}) succeeded although no such import is live")),
+                    }
+                }
+                // observations after every step: exactly the live imports of the model are iterated, in creation order, with their own names;
+                // find(module, name) returns the first live import with that name pair
+                let live: Vec<(String, String)> = m.imports.iter().map(|i| (i.module.clone(), i.name.clone())).collect();
+                let expect: Vec<(String, String)> = model.iter().filter(|x| x.2).map(|x| (pairs[x.0].0.to_string(), pairs[x.0].1.to_string())).collect();
+                if live != expect { return Err(format!("step {step}: live imports {live:?}, expected {expect:?}")); }
+                for (kk, (md2, nm2)) in pairs.iter().enumerate() {
+                    let f = m.imports.find(md2, nm2);
+                    let w = model.iter().find(|x| x.0 == kk && x.2).map(|x| x.1);
+                    if f != w { return Err(format!("step {step}: find({md2:?}, {nm2:?}) = {f:?}, expected {w:?}")); }
+                }
+            }
+            Ok(())
+        });
+        let e = match r { Ok(Ok(())) => continue, Ok(Err(e)) => e, Err(_) => "panic".to_string() };
+        if failures.len() < 12 { failures.push(json!({"collection": "ModuleImports by name", "history": format!("{:?}", h.iter().map(|(o, k)| (if *o == 0 { "add" } else { "remove" }, pairs[*k])).collect::<Vec<_>>()), "what": e})); }
+    }
+    Ok(json!({"violated": !failures.is_empty(), "type_histories": n, "global_histories": gn, "import_histories": inn, "length": len, "failures": failures}))
 }
